@@ -263,6 +263,16 @@ def _waylocs():
             W(2, [2], reflocs=[(-5, 7)], **M)]
 
 
+def _waylocs_partial():
+    """ways on which only some node references carry a location (what add-locations-to-ways --ignore-missing-nodes writes): a reference
+    without coordinates after one with coordinates, before one, between two, at both ends; OPL and XML only (PBF cannot express it)"""
+    A, B, D = (10000000, 20000000), (-1234500, 899999900), (70, -70)
+    return [W(1, [1, 2, 3, 4], reflocs=[A, None, B, None], tags=[("a", "b")], **M),
+            W(2, [5, 6, 7], reflocs=[None, D, None], **M),
+            W(3, [8, 9], reflocs=[B, None], **M),
+            W(4, [10, 11, 12], reflocs=[None, None, A], **M)]
+
+
 def _changesets():
     return [
         C(1, uid=1, user="u", num_changes=3, created=T0, closed=T0 + 100, box=(10000000, 20000000, 30000000, 40000000), tags=[("comment", "hi there")]),
@@ -290,7 +300,7 @@ def _snap(f):
                 o["lon"] -= o["lon"] % 70
                 o["lat"] -= o["lat"] % 70
             if o.get("reflocs"):
-                o["reflocs"] = [(x - x % 70, y - y % 70) for x, y in o["reflocs"]]
+                o["reflocs"] = [None if l is None else (l[0] - l[0] % 70, l[1] - l[1] % 70) for l in o["reflocs"]]
         return objs
     return g
 
@@ -313,6 +323,7 @@ DATASETS = {
     "cs_max": _snap(_cs_max),
     "outofrange": _outofrange,
     "waylocs": _snap(_waylocs),
+    "waylocs_partial": _snap(_waylocs_partial),
     "changesets": _changesets,
     "discussion": _changesets_discussion,
 }
